@@ -70,7 +70,7 @@ int main(int argc, char **argv) {
     NCV = sigma_build(CV, 1024, small ? SIGMA_SMALL : SIGMA_P);
     c3.nev = NCV;
     e1_cfg cfg = { .nev = NEV, .ev_name = ev_name, .apply = apply, .root_setup = root_setup, .model = &M, .model_size = sizeof M,
-                   .deadline_s = A.deadline > 0 ? A.deadline : 1200 };
+                   .deadline_s = A.deadline };
     if (A.replay) {
         A.verbose = 1;
         if (mode == 9) return e3_replay_file(&c3, A.replay);
